@@ -146,7 +146,7 @@ pub fn run(ctx: &Ctx) -> Report {
     }
     ns.push(1 << 22);
     // beyond the point where a worker index is no longer exact in f32
-    for n in [(1u32 << 24) - 1, 1 << 24, (1 << 24) + 1, (1 << 24) + 3] {
+    for n in [(1u32 << 24) - 1, 1 << 24, (1 << 24) + 1, (1 << 24) + 3, (1 << 24) + 10_007, 20_000_003, 1 << 25] {
         ns.push(n);
     }
     if ctx.tier == Tier::Thorough {
@@ -175,6 +175,8 @@ pub fn run(ctx: &Ctx) -> Report {
         bad.extend(b);
     }
     bad.sort_unstable();
+    // the same computation in the dev profile (debug assertions and overflow checks inside calculate_scopes)
+    dev_pass(ctx, &mut report);
     // end to end
     let configs = e2e_configs();
     let mut e2e_ns: Vec<u32> = (1..=64).collect();
@@ -223,8 +225,66 @@ pub fn run(ctx: &Ctx) -> Report {
     report
 }
 
+/// Dev-profile batch: small n exhaustively, then the large ones, shard `part` of `parts`.
+fn dev_batch(seed: u64, part: usize, parts: usize) -> Report {
+    let mut ns: Vec<u32> = (1..=1024).collect();
+    let mut rng = Rng::derive(seed, "c16-dev", 0);
+    for _ in 0..24 {
+        ns.push(1025 + rng.below((1u64 << 23) - 1025) as u32);
+    }
+    for n in [(1u32 << 22) + 1, (1 << 22) + 3, (1 << 22) + 5, (1 << 23) + 1, (1 << 24) - 1, (1 << 24) + 1] {
+        ns.push(n);
+    }
+    let mut report = Report::new();
+    let mut cuts = vec![0u64; 1177 / 64 + 1];
+    for (i, n) in ns.iter().enumerate() {
+        if i % parts == part {
+            check_n(*n, &mut report, &mut cuts);
+        }
+    }
+    report.count("dev_profile_worker_counts", report.evaluations);
+    report
+}
+
+fn dev_pass(ctx: &Ctx, report: &mut Report) {
+    use crate::child::{self, ChildOutcome};
+    let exe = match Ctx::exe_for("debug") {
+        Some(e) => e,
+        None => {
+            report.inconclusive("no dev-profile binary available (VERIF_DEBUG_EXE not set)");
+            return;
+        }
+    };
+    let parts = 12usize;
+    let results = par_run(parts, 1, |_| Report::new(), |r, part| {
+        let case = Json::obj().set("kind", Json::str("dev-batch")).set("seed", Json::Int(ctx.seed as i128)).set("part", Json::Int(part as i128)).set("parts", Json::Int(parts as i128));
+        match child::run_case(&exe, "C16", &case, 8 << 20, std::time::Duration::from_secs(900)) {
+            ChildOutcome::Reported(doc) => {
+                let ev = r.evaluations;
+                child::merge_child_report(r, &doc, "debug:");
+                r.evaluations = ev;
+            }
+            ChildOutcome::Crashed { signal, code, stack_overflow, stderr_tail } => r.violate(
+                format!("debug:dev-batch-{}:crash", part),
+                format!("[dev profile] batch {} died (signal {:?}, code {:?}, stack overflow {}): {}", part, signal, code, stack_overflow, stderr_tail),
+                case,
+            ),
+            ChildOutcome::Timeout { after_s } => r.inconclusive(format!("dev-profile batch {} timed out after {:.0}s", part, after_s)),
+            ChildOutcome::SpawnFailed(e) => r.inconclusive(format!("dev-profile batch {}: {}", part, e)),
+        }
+    });
+    for r in results {
+        report.merge(r);
+    }
+    child::cleanup_scratch();
+}
+
 pub fn replay(case: &Json) -> Report {
     let mut report = Report::new();
+    if case.get("kind").and_then(|k| k.as_str()) == Some("dev-batch") {
+        let get = |k: &str| case.get(k).and_then(|v| v.as_i128()).unwrap_or(0);
+        return dev_batch(get("seed") as u64, get("part") as usize, (get("parts") as usize).max(1));
+    }
     let n = case.get("n").and_then(|v| v.as_i128()).unwrap_or(0) as u32;
     if n == 0 {
         report.inconclusive("replay case has no n");
